@@ -34,50 +34,120 @@ pub enum Node {
     Number(Decimal),
 }
 
-fn gamma(a: Decimal) -> Decimal {
+#[rustfmt::skip] // one line per Lanczos coefficient
+fn gamma(a: Decimal) -> Option<Decimal> {
     let mut s = Decimal::new(2485740891387535655, 27);
     if a < Decimal::new(5, 1) {
-        s += Decimal::new(1051423785817219742, 20) / (Decimal::new(1, 0) - a);
-        s += Decimal::new(-3456870972220162354, 22) / (Decimal::new(2, 0) - a);
-        s += Decimal::new(4512277094668948237, 20) / (Decimal::new(3, 0) - a);
-        s += Decimal::new(-2982852253235766557, 22) / (Decimal::new(4, 0) - a);
-        s += Decimal::new(1056397115771267131, 22) / (Decimal::new(5, 0) - a);
-        s += Decimal::new(-1954287731916458696, 23) / (Decimal::new(6, 0) - a);
-        s += Decimal::new(1709705434044412243, 24) / (Decimal::new(7, 0) - a);
-        s += Decimal::new(-5719261174043057813, 24) / (Decimal::new(8, 0) - a);
-        s += Decimal::new(4633994733599056367, 28) / (Decimal::new(9, 0) - a);
-        s += Decimal::new(-2719949084886077039, 31) / (Decimal::new(10, 0) - a);
-        let compute_sin = (Decimal::new(3141592653589793238, 18) * a).sin(); // 3.14159265358979323846264338327950288419716939937510582
-        let compute_pow = ((a - Decimal::new(10400511, 6)) / Decimal::new(2718281828459045235, 18))
-            .powd(Decimal::new(5, 1) - a);
-        Decimal::new(3141592653589793238, 18)
-            / (compute_sin * s * Decimal::new(1860382734205265717, 18) * compute_pow)
+        s = s.checked_add(Decimal::new(1051423785817219742, 20).checked_div(Decimal::new(1, 0).checked_sub(a)?)?)?;
+        s = s.checked_add(Decimal::new(-3456870972220162354, 22).checked_div(Decimal::new(2, 0).checked_sub(a)?)?)?;
+        s = s.checked_add(Decimal::new(4512277094668948237, 20).checked_div(Decimal::new(3, 0).checked_sub(a)?)?)?;
+        s = s.checked_add(Decimal::new(-2982852253235766557, 22).checked_div(Decimal::new(4, 0).checked_sub(a)?)?)?;
+        s = s.checked_add(Decimal::new(1056397115771267131, 22).checked_div(Decimal::new(5, 0).checked_sub(a)?)?)?;
+        s = s.checked_add(Decimal::new(-1954287731916458696, 23).checked_div(Decimal::new(6, 0).checked_sub(a)?)?)?;
+        s = s.checked_add(Decimal::new(1709705434044412243, 24).checked_div(Decimal::new(7, 0).checked_sub(a)?)?)?;
+        s = s.checked_add(Decimal::new(-5719261174043057813, 24).checked_div(Decimal::new(8, 0).checked_sub(a)?)?)?;
+        s = s.checked_add(Decimal::new(4633994733599056367, 28).checked_div(Decimal::new(9, 0).checked_sub(a)?)?)?;
+        s = s.checked_add(Decimal::new(-2719949084886077039, 31).checked_div(Decimal::new(10, 0).checked_sub(a)?)?)?;
+        let compute_sin = Decimal::new(3141592653589793238, 18)
+            .checked_mul(a)?
+            .checked_sin()?; // 3.14159265358979323846264338327950288419716939937510582
+        let compute_pow = a
+            .checked_sub(Decimal::new(10400511, 6))?
+            .checked_div(Decimal::new(2718281828459045235, 18))?
+            .checked_powd(Decimal::new(5, 1).checked_sub(a)?)?;
+        Decimal::new(3141592653589793238, 18).checked_div(
+            compute_sin
+                .checked_mul(s)?
+                .checked_mul(Decimal::new(1860382734205265717, 18))?
+                .checked_mul(compute_pow)?,
+        )
     } else {
-        s += Decimal::new(1051423785817219742, 20) / a;
-        s += Decimal::new(-3456870972220162354, 22) / (a + Decimal::new(1, 0));
-        s += Decimal::new(4512277094668948237, 20) / (a + Decimal::new(2, 0));
-        s += Decimal::new(-2982852253235766557, 22) / (a + Decimal::new(3, 0));
-        s += Decimal::new(1056397115771267131, 22) / (a + Decimal::new(4, 0));
-        s += Decimal::new(-1954287731916458696, 23) / (a + Decimal::new(5, 0));
-        s += Decimal::new(1709705434044412243, 24) / (a + Decimal::new(6, 0));
-        s += Decimal::new(-5719261174043057813, 24) / (a + Decimal::new(7, 0));
-        s += Decimal::new(4633994733599056367, 28) / (a + Decimal::new(8, 0));
-        s += Decimal::new(-2719949084886077039, 31) / (a + Decimal::new(9, 0));
-        let compute_pow = ((a + Decimal::new(10400511, 6)) / Decimal::new(2718281828459045235, 18))
-            .powd(a - Decimal::new(5, 1));
-        s * Decimal::new(1860382734205265717, 18) * compute_pow
+        s = s.checked_add(Decimal::new(1051423785817219742, 20).checked_div(a)?)?;
+        s = s.checked_add(Decimal::new(-3456870972220162354, 22).checked_div(a.checked_add(Decimal::new(1, 0))?)?)?;
+        s = s.checked_add(Decimal::new(4512277094668948237, 20).checked_div(a.checked_add(Decimal::new(2, 0))?)?)?;
+        s = s.checked_add(Decimal::new(-2982852253235766557, 22).checked_div(a.checked_add(Decimal::new(3, 0))?)?)?;
+        s = s.checked_add(Decimal::new(1056397115771267131, 22).checked_div(a.checked_add(Decimal::new(4, 0))?)?)?;
+        s = s.checked_add(Decimal::new(-1954287731916458696, 23).checked_div(a.checked_add(Decimal::new(5, 0))?)?)?;
+        s = s.checked_add(Decimal::new(1709705434044412243, 24).checked_div(a.checked_add(Decimal::new(6, 0))?)?)?;
+        s = s.checked_add(Decimal::new(-5719261174043057813, 24).checked_div(a.checked_add(Decimal::new(7, 0))?)?)?;
+        s = s.checked_add(Decimal::new(4633994733599056367, 28).checked_div(a.checked_add(Decimal::new(8, 0))?)?)?;
+        s = s.checked_add(Decimal::new(-2719949084886077039, 31).checked_div(a.checked_add(Decimal::new(9, 0))?)?)?;
+        let compute_pow = a
+            .checked_add(Decimal::new(10400511, 6))?
+            .checked_div(Decimal::new(2718281828459045235, 18))?
+            .checked_powd(a.checked_sub(Decimal::new(5, 1))?)?;
+        s.checked_mul(Decimal::new(1860382734205265717, 18))?
+            .checked_mul(compute_pow)
     }
+}
+
+fn lambert_w(x: Decimal) -> Option<Decimal> {
+    let iterations = x
+        .checked_log10()
+        .and_then(|log| log.checked_div(Decimal::new(3, 0)))
+        .and_then(|log| Decimal::new(4, 0).max(log.ceil()).to_i32())
+        .unwrap_or(4)
+        .min(128);
+    let mut w = Decimal::ZERO;
+    for _ in 0..iterations {
+        let exp_w = w.checked_exp()?;
+        let f = w.checked_mul(exp_w)?.checked_sub(x)?;
+        let w_plus_one = w.checked_add(Decimal::new(1, 0))?;
+        let w_plus_two = w.checked_add(Decimal::new(2, 0))?;
+        let two_w_plus_two = Decimal::new(2, 0)
+            .checked_mul(w)?
+            .checked_add(Decimal::new(2, 0))?;
+        let correction = w_plus_two.checked_mul(f)?.checked_div(two_w_plus_two)?;
+        let denominator = exp_w.checked_mul(w_plus_one)?.checked_sub(correction)?;
+        w = w.checked_sub(f.checked_div(denominator)?)?;
+    }
+    Some(w)
+}
+
+fn ilog(n: Decimal, b: Decimal) -> Option<Decimal> {
+    let mut n = n;
+    let mut x = Decimal::ZERO;
+    while n > Decimal::new(1, 0) {
+        x = x.checked_add(Decimal::new(1, 0))?;
+        n = n.checked_log10()?.checked_div(b.checked_log10()?)?.floor();
+    }
+    Some(x)
 }
 
 pub fn eval(expr: Node) -> Result<Decimal, Box<dyn error::Error>> {
     use self::Node::*;
     match expr {
         Number(i) => Ok(i),
-        Add(expr1, expr2) => Ok(eval(*expr1)? + eval(*expr2)?),
-        Subtract(expr1, expr2) => Ok(eval(*expr1)? - eval(*expr2)?),
-        Multiply(expr1, expr2) => Ok(eval(*expr1)? * eval(*expr2)?),
-        Divide(expr1, expr2) => Ok(eval(*expr1)? / eval(*expr2)?),
-        Modulo(expr1, expr2) => Ok(eval(*expr1)? % eval(*expr2)?),
+        Add(expr1, expr2) => {
+            let a = eval(*expr1)?;
+            let b = eval(*expr2)?;
+            a.checked_add(b)
+                .ok_or_else(|| "Overflow in addition".into())
+        }
+        Subtract(expr1, expr2) => {
+            let a = eval(*expr1)?;
+            let b = eval(*expr2)?;
+            a.checked_sub(b)
+                .ok_or_else(|| "Overflow in subtraction".into())
+        }
+        Multiply(expr1, expr2) => {
+            let a = eval(*expr1)?;
+            let b = eval(*expr2)?;
+            a.checked_mul(b)
+                .ok_or_else(|| "Overflow in multiplication".into())
+        }
+        Divide(expr1, expr2) => {
+            let a = eval(*expr1)?;
+            let b = eval(*expr2)?;
+            a.checked_div(b)
+                .ok_or_else(|| "Division by zero or overflow in division".into())
+        }
+        Modulo(expr1, expr2) => {
+            let a = eval(*expr1)?;
+            let b = eval(*expr2)?;
+            a.checked_rem(b)
+                .ok_or_else(|| "Modulo by zero or overflow in modulo".into())
+        }
         Negative(expr1) => Ok(-(eval(*expr1)?)),
         Abs(sub_expr) => Ok(eval(*sub_expr)?.abs()),
         Floor(sub_expr) => Ok(eval(*sub_expr)?.floor()),
@@ -85,64 +155,93 @@ pub fn eval(expr: Node) -> Result<Decimal, Box<dyn error::Error>> {
         Round(sub_expr) => Ok(eval(*sub_expr)?.round()),
         Truncate(sub_expr) => Ok(eval(*sub_expr)?.trunc()),
         Sign(sub_expr) => Ok(eval(*sub_expr)?.signum()),
-        Ln(sub_expr) => Ok(eval(*sub_expr)?.ln()),
-        Lb(sub_expr) => Ok(eval(*sub_expr)?.ln() / Decimal::new(2, 0).ln()),
-        Exp(sub_expr) => Ok(eval(*sub_expr)?.exp()),
-        Exp2(sub_expr) => Ok(Decimal::new(2, 0).powd(eval(*sub_expr)?)),
-        Pow(expr1, expr2) => Ok(eval(*expr1)?.powd(eval(*expr2)?)),
-        Log(expr1, expr2) => Ok(eval(*expr1)?.ln() / eval(*expr2)?.ln()),
+        Ln(sub_expr) => eval(*sub_expr)?
+            .checked_ln()
+            .ok_or_else(|| "The logarithm is only defined for positive numbers".into()),
+        Lb(sub_expr) => eval(*sub_expr)?
+            .checked_ln()
+            .and_then(|ln_x| ln_x.checked_div(Decimal::new(2, 0).checked_ln()?))
+            .ok_or_else(|| "The logarithm is only defined for positive numbers".into()),
+        Exp(sub_expr) => eval(*sub_expr)?
+            .checked_exp()
+            .ok_or_else(|| "Overflow in the exponential function".into()),
+        Exp2(sub_expr) => Decimal::new(2, 0)
+            .checked_powd(eval(*sub_expr)?)
+            .ok_or_else(|| "Overflow in the exponential function".into()),
+        Pow(expr1, expr2) => {
+            let a = eval(*expr1)?;
+            let b = eval(*expr2)?;
+            a.checked_powd(b)
+                .ok_or_else(|| "Overflow or undefined result in power".into())
+        }
+        Log(expr1, expr2) => {
+            let a = eval(*expr1)?;
+            let b = eval(*expr2)?;
+            a.checked_ln()
+                .and_then(|ln_a| ln_a.checked_div(b.checked_ln()?))
+                .ok_or_else(|| "The logarithm is not defined for these arguments".into())
+        }
         Factorial(sub_expr) => {
             let sub_result = eval(*sub_expr)?;
+            let fractional_part = sub_result
+                .checked_rem(Decimal::new(1, 0))
+                .ok_or("Overflow in the factorial function")?;
             if sub_result >= Decimal::ZERO {
-                if (sub_result % Decimal::new(1, 0)) > Decimal::ZERO {
-                    Ok(gamma(sub_result + Decimal::new(1, 0)))
+                if fractional_part > Decimal::ZERO {
+                    sub_result
+                        .checked_add(Decimal::new(1, 0))
+                        .and_then(gamma)
+                        .ok_or_else(|| "Overflow in the factorial function".into())
                 } else {
+                    let n = match sub_result.to_i64() {
+                        Some(n) if n <= 27 => n,
+                        _ => return Err("Overflow in the factorial function".into()),
+                    };
                     let mut factorial_result = Decimal::new(1, 0);
-                    for i in 2..=sub_result.to_i64().unwrap() {
-                        factorial_result *= Decimal::new(i, 0);
+                    for i in 2..=n {
+                        factorial_result = factorial_result
+                            .checked_mul(Decimal::new(i, 0))
+                            .ok_or("Overflow in the factorial function")?;
                     }
                     Ok(factorial_result)
                 }
-            } else if (sub_result % Decimal::new(1, 0)) == Decimal::ZERO {
+            } else if fractional_part == Decimal::ZERO {
                 return Err("The factorial function is not defined for {}.".into());
             } else {
-                Ok(gamma(sub_result + Decimal::new(1, 0)))
+                sub_result
+                    .checked_add(Decimal::new(1, 0))
+                    .and_then(gamma)
+                    .ok_or_else(|| "Overflow in the factorial function".into())
             }
         }
         LambertW(expr) => {
             let sub_expr = eval(*expr)?;
-            if sub_expr < -Decimal::new(-1, 0).exp() {
+            let branch_point = Decimal::new(-1, 0)
+                .checked_exp()
+                .ok_or("Overflow in the Lambert W function")?;
+            if sub_expr < -branch_point {
                 return Err("The Lambert W function is not defined for {}.".into());
             }
-            let iterations = (Decimal::new(4, 0))
-                .max((sub_expr.log10() / Decimal::new(3, 0)).ceil())
-                .to_i32()
-                .unwrap_or(4);
-            let mut w = Decimal::ZERO;
-            for _ in 0..iterations {
-                let exp_w = w.exp();
-                w -= (w * exp_w - sub_expr)
-                    / (exp_w * (w + Decimal::new(1, 0))
-                        - (w + Decimal::new(2, 0)) * (w * exp_w - sub_expr)
-                            / (Decimal::new(2, 0) * w + Decimal::new(2, 0)));
-            }
-            Ok(w)
+            lambert_w(sub_expr).ok_or_else(|| "Overflow in the Lambert W function".into())
         }
         ILog(expr1, expr2) => {
-            let mut n = eval(*expr1)?;
+            let n = eval(*expr1)?;
             let b = eval(*expr2)?;
-            let mut x = Decimal::ZERO;
-            while n > Decimal::new(1, 0) {
-                x += Decimal::new(1, 0);
-                n = (n.log10() / b.log10()).floor();
-            }
-            Ok(x)
+            ilog(n, b)
+                .ok_or_else(|| "The iterated logarithm is not defined for these arguments".into())
         }
         Sqrt(sub_expr) => match eval(*sub_expr)?.sqrt() {
             Some(result) => Ok(result),
             None => Err("Unable to compute the square root of negative number".into()),
         },
-        Root(n_th_expr, x_expr) => Ok(eval(*x_expr)?.powd(Decimal::new(1, 0) / eval(*n_th_expr)?)),
+        Root(n_th_expr, x_expr) => {
+            let x = eval(*x_expr)?;
+            let n = eval(*n_th_expr)?;
+            Decimal::new(1, 0)
+                .checked_div(n)
+                .and_then(|exponent| x.checked_powd(exponent))
+                .ok_or_else(|| "Overflow or undefined result in root".into())
+        }
         Min(args) => {
             if args.len() > 1 {
                 let mut result = Decimal::MAX;
@@ -174,9 +273,11 @@ pub fn eval(expr: Node) -> Result<Decimal, Box<dyn error::Error>> {
         Avg(args) => {
             let mut result = Decimal::ZERO;
             for arg in <Vec<Node> as Clone>::clone(&args).into_iter() {
-                result += eval(arg)?;
+                result = result.checked_add(eval(arg)?).ok_or("Overflow in avg")?;
             }
-            Ok(result / Decimal::new(args.len() as i64, 0))
+            result
+                .checked_div(Decimal::new(args.len() as i64, 0))
+                .ok_or_else(|| "Overflow in avg".into())
         }
         Med(args) => {
             let mut results = vec![];
@@ -186,7 +287,10 @@ pub fn eval(expr: Node) -> Result<Decimal, Box<dyn error::Error>> {
             results.sort_by(|a, b| a.partial_cmp(b).unwrap());
             let len = results.len();
             if len % 2 == 0 {
-                Ok((results[len >> 1] + results[(len >> 1) - 1]) / Decimal::new(2, 0))
+                results[len >> 1]
+                    .checked_add(results[(len >> 1) - 1])
+                    .and_then(|sum| sum.checked_div(Decimal::new(2, 0)))
+                    .ok_or_else(|| "Overflow in med".into())
             } else {
                 Ok(results[len >> 1])
             }
